@@ -174,12 +174,14 @@ func quantSigs(fn *ssa.Function) ([]quantSig, []string) {
 
 func runC06(c *Ctx) {
 	c.Rule("Q1 quantiser derivation: the encoder function and the decoder function that read KDcTable derive the dequantisation factors from the same tables with the same clamp limits and post-operations: equal multisets of (table, clamp limit, multiplier, shift), with KAcTable2[i] identified with KAcTable[i]*101581>>16 (relation verified by C04 A8-relations)")
-	c.NotCovered("everything else the property states: that encoder-side reconstruction (prediction, forward/inverse DCT and WHT, clipping, serial and parallel paths) and decoder-side reconstruction compute the same sample values; token and context agreement; segment map transmission - all value-level")
+	c.Rule("K3-enc-transform: the encoder's reconstruction transforms (dsp.iTransformOne, iTransform, ITransformDirect) have, sample for sample, the S8 normal form of the decoder's dsp.transformOne applied to the prediction block; the intra predictors are shared functions (checked against the reference by C04 K1)")
+	c.NotCovered("everything else the property states: that encoder-side reconstruction (quantisation/dequantisation round trip, WHT shortcut paths, serial and parallel paths) and decoder-side reconstruction compute the same sample values; token and context agreement; segment map transmission - all value-level")
 	for _, cf := range c.configsFor() {
 		p := c.load(cf[0], cf[1])
 		if p == nil {
 			continue
 		}
+		kernelEncoderTransform(c, p)
 		pk := p.SSAPkg("internal/lossy")
 		if pk == nil {
 			c.AnchorMissing("Q1-quant-derivation", "package internal/lossy")
